@@ -46,6 +46,12 @@ def run(ctx: Ctx):
     from .common import float64_extractors
 
     float64_extractors(ctx)
+    from .common import dependency_footprints
+
+    dependency_footprints(ctx)
+    from .common import public_values_assembled
+
+    public_values_assembled(ctx, "public-assembled", "_Slice", ("pairwise_indices", "pairwise_indices_alt", "pairwise_means_indices", "pairwise_means_indices_alt"))
 
 
 class _Ren(ast.NodeTransformer):
@@ -84,6 +90,69 @@ def t_formula(ctx: Ctx):
     ctx.ob("t-formula.params", where, m.params, "['props','bases','ref_props','ref_bases']", m.params == ["props", "bases", "ref_props", "ref_bases"])
 
 
+def _as_grid(e: ast.expr):
+    """`XSubtotals.blocks(B, D, **kw)` == [[B, X.subtotal_columns(B, D, **kw)], [X.subtotal_rows(..), X.intersections(..)]]."""
+    if isinstance(e, ast.List) and len(e.elts) == 2 and all(isinstance(r, ast.List) and len(r.elts) == 2 for r in e.elts):
+        return [[e.elts[0].elts[0], e.elts[0].elts[1]], [e.elts[1].elts[0], e.elts[1].elts[1]]]
+    if isinstance(e, ast.Call) and isinstance(e.func, ast.Attribute) and e.func.attr == "blocks" and isinstance(e.func.value, ast.Name) and e.func.value.id.endswith("Subtotals") and e.args:
+        def call(name):
+            return ast.Call(func=ast.Attribute(value=e.func.value, attr=name, ctx=ast.Load()), args=list(e.args), keywords=list(e.keywords))
+
+        return [[e.args[0], call("subtotal_columns")], [call("subtotal_rows"), call("intersections")]]
+    return None
+
+
+def _value_part(e: ast.expr) -> ast.expr:
+    """Drop the parts that only contribute a SHAPE: `X.shape` and the empty-case short-circuit `X if X.shape[0] == 0 else Y`."""
+    class T(ast.NodeTransformer):
+        def visit_IfExp(self, n):
+            t = u(n.test)
+            if ".shape[0] == 0" in t and u(n.body) in t:
+                return self.visit(n.orelse)
+            return self.generic_visit(n)
+
+        def visit_Attribute(self, n):
+            if n.attr == "shape":
+                return ast.Name(id="SHAPE", ctx=ast.Load())
+            return self.generic_visit(n)
+
+    import copy
+
+    return T().visit(copy.deepcopy(e))
+
+
+def block_mirror(ctx: Ctx):
+    """(sum w)^2 / sum w^2 is an effective base only when numerator and denominator are the same function of their base
+    values in every block.  Both column bases are already summed over the rows and broadcast to every row, so the
+    subtotal-ROW and intersection blocks repeat the column's base; summing the addend rows would give k times the base."""
+    from ..exprdiff import canon
+
+    where = f"{MM}::_ColumnSquaredBases.blocks"
+    grids = {}
+    for n in ("_ColumnWeightedBases", "_ColumnSquaredBases"):
+        ci = ctx.repo.cls(MM, n)
+        grids[n] = _as_grid(expand(ctx.repo, ci, "blocks", stop=lambda m: m.name == "_base_values"))
+    gw, gs = grids["_ColumnWeightedBases"], grids["_ColumnSquaredBases"]
+    if gw is None or gs is None:
+        ctx.undecided("effective-base.block-mirror", where, "blocks not in 2x2 form", "the four blocks of both column bases")
+        return
+    for i in (0, 1):
+        for j in (0, 1):
+            a, b = u(canon(gw[i][j])), u(canon(gs[i][j]))
+            w = f"{where}[{i}][{j}]"
+            ctx.count("column-base mirror blocks")
+            if a == b:
+                ctx.held("effective-base.block-mirror", w, b[:120], a[:120], "the squared base is built from its base values exactly as the weighted base is")
+                continue
+            vb = u(_value_part(gs[i][j]))
+            if i == 1 and ("Subtotals.subtotal_rows(" in vb or "Subtotals.intersections(" in vb) and "broadcast_to" in u(_value_part(gw[i][j])):
+                ctx.violated("effective-base.block-mirror", w, b[:160], a[:160],
+                             "the squared base of a subtotal row is the SUM of its addend rows (each already the column's sum of squared weights) while the weighted base repeats the column base: the effective base of a k-addend subtotal row is divided by k")
+            else:
+                ctx.undecided("effective-base.block-mirror", w, b[:160], a[:160])
+    ctx.require_min("column-base mirror blocks", 4)
+
+
 def column_bases(ctx: Ctx):
     ci = ctx.repo.cls(MM, "_PairwiseSigTstats")
     e = expand(ctx.repo, ci, "_column_bases")
@@ -105,6 +174,7 @@ def column_bases(ctx: Ctx):
     else:
         ctx.undecided("effective-base.blocks", where, u(g)[:100], "2x2 grid")
     ctx.require_min("effective-base blocks", 4)
+    block_mirror(ctx)
     cs = ctx.repo.cls(MM, "_ColumnSquaredBases")
     e = expand(ctx.repo, cs, "is_defined")
     ctx.check_expr("effective-base.guard", f"{MM}::_ColumnSquaredBases.is_defined", e, "self._cube_measures.weighted_squared_cube_counts is not None")
